@@ -3,9 +3,396 @@
 package c11
 
 import (
+	"context"
+	"fmt"
+	"net"
+	"strconv"
+	"strings"
+	"sync"
+	"sync/atomic"
 	"testing"
+	"time"
 
+	"github.com/emersion/go-message/textproto"
+	"github.com/emersion/go-smtp"
+	mockdns "github.com/foxcpp/go-mockdns"
+	"github.com/foxcpp/maddy/framework/buffer"
+	"github.com/foxcpp/maddy/framework/module"
+	"github.com/foxcpp/maddy/internal/target/remote"
+	"verifkit/prng"
 	"verifkit/rep"
+	"verifkit/smtpd"
 )
 
-func runRemoteCases(t *testing.T, r *rep.Reporter, env instrEnv) {}
+// Layer (iii): the real remote target (production defaults, connection pool
+// on) with a limits.Group built from configuration text, delivering to one
+// scripted next hop (verifkit/smtpd) per destination domain. 1-16 concurrent
+// deliveries with 1-3 recipients in 1-2 domains end at every stage: committed,
+// aborted before the body, MAIL rejected by the next hop (5xx / 4xx),
+// connection dropped at MAIL, RCPT rejected, DATA failed or dropped; Start and
+// AddRcpt run under background, short-deadline or cancelled contexts (limit
+// time-outs, interrupted connection set-up).
+//
+// Inside intervals, all harness-side and therefore subsets of the permit
+// intervals: message scopes from Start returning nil to the call of
+// Commit/Abort; destination scope from the first AddRcpt for a domain
+// returning nil (the target has taken the domain's permit and opened the
+// transaction) to the call of Commit/Abort.
+
+type rmRcpt struct {
+	Domain int `json:"domain"`
+	Ctx    int `json:"ctx"`
+	US     int `json:"us"`
+}
+
+type rmDomAct struct {
+	Mail    string `json:"mail,omitempty"` // "", perm, temp, drop, rst
+	Rcpt    string `json:"rcpt,omitempty"` // "", perm
+	Dot     string `json:"dot,omitempty"`  // "", temp, drop
+	DelayUS int    `json:"delay_us,omitempty"`
+}
+
+type rmDelivery struct {
+	Src      int              `json:"src"` // sender domain class, -1 = null sender
+	IP       int              `json:"ip"`  // -1: no connection info (127.0.0.1)
+	StartCtx int              `json:"start_ctx"`
+	StartUS  int              `json:"start_us"`
+	Rcpts    []rmRcpt         `json:"rcpts"`
+	Acts     map[int]rmDomAct `json:"acts"` // per destination domain
+	End      string           `json:"end"`  // commit | abort | body-abort
+	Dwell    int              `json:"dwell"`
+}
+
+type rmScenario struct {
+	Cfg        limitsCfg      `json:"cfg"`
+	Text       string         `json:"limits_text"`
+	Domains    int            `json:"domains"`
+	Workers    int            `json:"workers"`
+	Plans      [][]rmDelivery `json:"plans"`
+	ReuseLimit int            `json:"conn_reuse_limit"`
+}
+
+func rmDomain(k int) string { return fmt.Sprintf("d%d.example", k) }
+
+func genRemoteScenario(p *prng.R) rmScenario {
+	sc := rmScenario{Domains: p.Range(1, 3), Workers: prng.Pick(p, []int{1, 2, 3, 4, 6, 8, 12, 16})}
+	sc.Cfg = genCfg(p, cfgOpts{scopes: allScopes, maxN: prng.Pick(p, []int{1, 2, 3}), allowRate: true, rateBurst: 1024, force: scDest})
+	sc.Text = sc.Cfg.Text()
+	if p.Chance(1, 4) {
+		sc.ReuseLimit = -1 // pooling off
+	}
+	nsrc := p.Range(1, 2)
+	per := p.Range(1, 4)
+	if sc.Workers >= 12 {
+		per = p.Range(1, 2)
+	}
+	ctxW := [][]int{{6, 2, 1, 1}, {3, 5, 1, 2}}[p.Intn(2)]
+	for w := 0; w < sc.Workers; w++ {
+		var plan []rmDelivery
+		for k := 0; k < per; k++ {
+			d := rmDelivery{Src: p.Intn(nsrc), IP: p.Intn(3) - 1, StartCtx: p.Weighted(ctxW), StartUS: p.Range(100, 4000), Acts: map[int]rmDomAct{}, Dwell: p.Intn(8)}
+			if p.Chance(1, 10) {
+				d.Src = -1
+			}
+			d.End = prng.Pick(p, []string{"commit", "commit", "abort", "body-abort"})
+			nd := 1
+			if sc.Domains > 1 && p.Chance(1, 3) {
+				nd = 2
+			}
+			doms := p.Perm(sc.Domains)[:nd]
+			for i, dom := range doms {
+				for r, nr := 0, p.Range(1, 2); r < nr; r++ {
+					rc := rmRcpt{Domain: dom, Ctx: p.Weighted(ctxW), US: p.Range(300, 20000)}
+					if i > 0 && rc.Ctx == ctxBG {
+						// never wait unboundedly for a second destination while holding the first
+						rc.Ctx = ctxShort
+					}
+					d.Rcpts = append(d.Rcpts, rc)
+				}
+				var a rmDomAct
+				switch p.Weighted([]int{5, 2, 1, 1, 1, 1, 1, 1}) {
+				case 1:
+					a.Mail = "perm"
+				case 2:
+					a.Mail = "temp"
+				case 3:
+					a.Mail = "drop"
+				case 4:
+					a.Mail = "rst"
+				case 5:
+					a.Rcpt = "perm"
+				case 6:
+					a.Dot = "temp"
+				case 7:
+					a.Dot = "drop"
+				}
+				if p.Chance(1, 3) {
+					a.DelayUS = p.Range(100, 3000)
+				}
+				d.Acts[dom] = a
+			}
+			plan = append(plan, d)
+		}
+		sc.Plans = append(sc.Plans, plan)
+	}
+	return sc
+}
+
+type rmStats struct {
+	started, startCtxErr, startOtherErr     atomic.Int64
+	rcptOK, rcptErr, rcptCtxErr             atomic.Int64
+	bodyOK, bodyErr, commits, aborts        atomic.Int64
+	mailRejected, mailDropped, rcptRejected atomic.Int64
+	dotFailed                               atomic.Int64
+}
+
+// deliveryOf parses the worker/delivery ids out of "w<worker>k<n>@...".
+func deliveryOf(from string) (w, k int, ok bool) {
+	at := strings.IndexByte(from, '@')
+	if at < 0 || !strings.HasPrefix(from, "w") {
+		return 0, 0, false
+	}
+	lp := from[1:at]
+	i := strings.IndexByte(lp, 'k')
+	if i < 0 {
+		return 0, 0, false
+	}
+	w, e1 := strconv.Atoi(lp[:i])
+	k, e2 := strconv.Atoi(lp[i+1:])
+	return w, k, e1 == nil && e2 == nil
+}
+
+func runRemoteCases(t *testing.T, r *rep.Reporter, env instrEnv) {
+	n := r.N(64, 2000)
+	for i := 0; i < n; i++ {
+		idx := baseRemote + i
+		r.Run(idx, fmt.Sprintf("remote-%d", i), func(c *rep.Case) {
+			p := prng.New(r.Seed(), uint64(idx), "c11/remote")
+			sc := genRemoteScenario(p)
+			g, err := buildGroup(sc.Text)
+			if err != nil {
+				t.Fatalf("case %d: limits.Init(%q): %v", idx, sc.Text, err)
+			}
+			yieldMode{Kind: "count"}.Install(0)
+			var st rmStats
+
+			// one scripted next hop per destination domain
+			zones := map[string]mockdns.Zone{}
+			servers := make([]*smtpd.Server, sc.Domains)
+			addrOf := map[string]string{}
+			for k := 0; k < sc.Domains; k++ {
+				k := k
+				srv, err := smtpd.New(smtpd.Config{PIPELINING: true, EightBitMIME: true, Script: func(ev smtpd.Event) *smtpd.Action {
+					w, dk, ok := deliveryOf(ev.From)
+					if !ok || w >= len(sc.Plans) || dk >= len(sc.Plans[w]) {
+						return nil
+					}
+					a := sc.Plans[w][dk].Acts[k]
+					delay := time.Duration(a.DelayUS) * time.Microsecond
+					switch ev.Stage {
+					case smtpd.StageMail:
+						switch a.Mail {
+						case "perm":
+							st.mailRejected.Add(1)
+							return &smtpd.Action{Code: 550, Enh: "5.7.1", Text: []string{"sender refused"}, Delay: delay}
+						case "temp":
+							st.mailRejected.Add(1)
+							return &smtpd.Action{Code: 451, Enh: "4.7.1", Text: []string{"sender deferred"}, Delay: delay}
+						case "drop":
+							st.mailDropped.Add(1)
+							return &smtpd.Action{DropBefore: true, Delay: delay}
+						case "rst":
+							st.mailDropped.Add(1)
+							return &smtpd.Action{DropBefore: true, RST: true}
+						}
+						return &smtpd.Action{Delay: delay}
+					case smtpd.StageRcpt:
+						if a.Rcpt == "perm" {
+							st.rcptRejected.Add(1)
+							return &smtpd.Action{Code: 550, Enh: "5.1.1", Text: []string{"no such user"}}
+						}
+					case smtpd.StageDot:
+						switch a.Dot {
+						case "temp":
+							st.dotFailed.Add(1)
+							return &smtpd.Action{Code: 451, Enh: "4.3.0", Text: []string{"try later"}}
+						case "drop":
+							st.dotFailed.Add(1)
+							return &smtpd.Action{DropBefore: true}
+						}
+					}
+					return nil
+				}})
+				if err != nil {
+					t.Fatalf("smtpd: %v", err)
+				}
+				servers[k] = srv
+				mxName := "mx." + rmDomain(k)
+				zones[rmDomain(k)+"."] = mockdns.Zone{MX: []net.MX{{Host: mxName + ".", Pref: 10}}}
+				zones[mxName+"."] = mockdns.Zone{A: []string{"127.0.0.1"}}
+				addrOf[mxName] = srv.Addr()
+			}
+			defer func() {
+				for _, s := range servers {
+					s.Close()
+				}
+			}()
+			resolver := &mockdns.Resolver{Zones: zones}
+			dialer := func(ctx context.Context, network, addr string) (net.Conn, error) {
+				host, _, err := net.SplitHostPort(addr)
+				if err != nil {
+					return nil, err
+				}
+				real, ok := addrOf[strings.TrimSuffix(host, ".")]
+				if !ok {
+					// the target dials the resolved address: all A records are 127.0.0.1, one server per MX name;
+					// fall back to resolving by the name the target used for the lookup
+					return nil, fmt.Errorf("c11 dialer: unknown host %q", host)
+				}
+				var d net.Dialer
+				return d.DialContext(ctx, "tcp", real)
+			}
+			tgt, err := remote.VerifNewTarget(remote.VerifTargetOpts{
+				Name: fmt.Sprintf("c11_remote_%d", idx), Resolver: resolver, Dialer: dialer, NoTLS: true,
+				Limits: g, ConnReuseLimit: sc.ReuseLimit,
+			})
+			if err != nil {
+				t.Fatalf("case %d: remote target: %v", idx, err)
+			}
+			defer tgt.Close()
+
+			mon := newInsideMon(sc.Cfg)
+			var cr crashes
+			var wg sync.WaitGroup
+			for w := 0; w < sc.Workers; w++ {
+				wg.Add(1)
+				go func(w int) {
+					defer wg.Done()
+					cr.Guard(func() {
+						for k, d := range sc.Plans[w] {
+							runRemoteDelivery(tgt, w, k, d, mon, &st)
+						}
+					})
+				}(w)
+			}
+			if !waitTimeout(&wg, 180*time.Second) {
+				c.Inconclusive("deliveries did not finish within the watchdog")
+				c.Done("", false)
+				return
+			}
+			cr.Report(c, "remote", sc)
+			mon.Report(c, "remote", sc)
+			if !cr.Any() {
+				pb := &prober{c: c, r: r, g: g, cfg: sc.Cfg, layer: "remote", wit: sc, cr: &cr}
+				pb.probeAll(net.IPv4(127, 0, 0, 1), "s0.example", rmDomain(0))
+				for k := 1; k < sc.Domains && !cr.Any(); k++ {
+					if !pb.probeDest(rmDomain(k)) {
+						break
+					}
+				}
+				cr.Report(c, "remote", sc)
+			}
+
+			r.Count("remote_deliveries_started", st.started.Load())
+			r.Count("remote_start_limit_timeout", st.startCtxErr.Load())
+			r.Count("remote_start_other_error", st.startOtherErr.Load())
+			r.Count("remote_rcpt_accepted", st.rcptOK.Load())
+			r.Count("remote_rcpt_failed", st.rcptErr.Load())
+			r.Count("remote_committed", st.commits.Load())
+			r.Count("remote_aborted", st.aborts.Load())
+			r.Count("remote_body_ok", st.bodyOK.Load())
+			r.Count("remote_body_failed", st.bodyErr.Load())
+			r.Count("nexthop_mail_rejected", st.mailRejected.Load())
+			r.Count("nexthop_dropped_at_mail", st.mailDropped.Load())
+			r.Count("nexthop_rcpt_rejected", st.rcptRejected.Load())
+			r.Count("nexthop_data_failed", st.dotFailed.Load())
+			conns := 0
+			for _, s := range servers {
+				conns += s.TotalConns()
+			}
+			r.Count("nexthop_connections", int64(conns))
+			sat, scs := mon.Saturated()
+			r.Count("scope_keys_saturated", int64(sat))
+			for s := range scs {
+				r.Distinct("scopes_saturated", s)
+			}
+			r.Count("monitored_enters", mon.enter)
+			if i < 2 {
+				r.Sample(map[string]any{"layer": "remote", "limits": sc.Text, "workers": sc.Workers, "domains": sc.Domains})
+			}
+			failures := st.mailRejected.Load()+st.mailDropped.Load() > 0
+			shape := fmt.Sprintf("remote cfg=%s w=%d doms=%d reuse=%d sat=%v mailfail=%v rcptrej=%v dotfail=%v to=%v", sc.Cfg.Shape(), sc.Workers, sc.Domains, sc.ReuseLimit,
+				sat > 0, failures, st.rcptRejected.Load() > 0, st.dotFailed.Load() > 0, st.startCtxErr.Load() > 0)
+			c.Done(shape, sat > 0 || failures || st.startCtxErr.Load() > 0)
+		})
+	}
+}
+
+func runRemoteDelivery(tgt *remote.Target, w, k int, d rmDelivery, mon *insideMon, st *rmStats) {
+	from := ""
+	src := ""
+	if d.Src >= 0 {
+		src = fmt.Sprintf("s%d.example", d.Src)
+		from = fmt.Sprintf("w%dk%d@%s", w, k, src)
+	}
+	meta := &module.MsgMetadata{ID: fmt.Sprintf("c11w%dk%d", w, k), OriginalFrom: from}
+	ip := net.IPv4(127, 0, 0, 1)
+	if d.IP >= 0 {
+		ip = net.IPv4(198, 51, 100, byte(1+d.IP))
+		meta.Conn = &module.ConnState{RemoteAddr: &net.TCPAddr{IP: ip, Port: 1000}, Proto: "ESMTP"}
+	}
+	ctx, cancel := mkCtx(d.StartCtx, d.StartUS)
+	del, err := tgt.Start(ctx, meta, from)
+	cancel()
+	if err != nil {
+		if isCtxErr(err) || strings.Contains(err.Error(), "High load") {
+			st.startCtxErr.Add(1)
+		} else {
+			st.startOtherErr.Add(1)
+		}
+		return
+	}
+	st.started.Add(1)
+	msgKeys := []scopeKey{{scAll, ""}, {scIP, ip.String()}, {scSrc, src}}
+	mon.Enter(msgKeys...)
+	heldDom := map[int]bool{}
+	for ri, rc := range d.Rcpts {
+		ctx, cancel := mkCtx(rc.Ctx, rc.US)
+		err := del.AddRcpt(ctx, fmt.Sprintf("r%d@%s", ri, rmDomain(rc.Domain)), smtp.RcptOptions{})
+		cancel()
+		if err != nil {
+			if isCtxErr(err) {
+				st.rcptCtxErr.Add(1)
+			}
+			st.rcptErr.Add(1)
+			continue
+		}
+		st.rcptOK.Add(1)
+		if !heldDom[rc.Domain] {
+			heldDom[rc.Domain] = true
+			mon.Enter(scopeKey{scDest, rmDomain(rc.Domain)})
+		}
+	}
+	dwell(d.Dwell)
+	if d.End != "abort" {
+		hdr := textproto.Header{}
+		hdr.Add("Subject", "c11")
+		hdr.Add("From", "<"+from+">")
+		if err := del.Body(context.Background(), hdr, buffer.MemoryBuffer{Slice: []byte("body\r\n")}); err != nil {
+			st.bodyErr.Add(1)
+		} else {
+			st.bodyOK.Add(1)
+		}
+	}
+	for dom := range heldDom {
+		mon.Leave(scopeKey{scDest, rmDomain(dom)})
+	}
+	mon.Leave(msgKeys...)
+	if d.End == "commit" {
+		st.commits.Add(1)
+		del.Commit(context.Background())
+	} else {
+		st.aborts.Add(1)
+		del.Abort(context.Background())
+	}
+}
